@@ -27,7 +27,7 @@ PARAMS = dict(
     ncls=(2, 6), npool=(1, 6), pool_cap=8, nops=(0, 25), full_max_ops=8,
     p_force=0.30,               # diamond / two-base class embedded
     kind_w=[40, 20, 15, 15, 10],
-    w=dict(create=22, add=25, remove=15, delete=13, process=8, clear=4, enable=6,
+    w=dict(create=22, add=25, remove=15, delete=13, process=8, clear=4, enable=8, probe=4,
            addproc=4, rmproc=3),
     p_auto=0.5, p_future=0.30, create_sizes=[5, 50, 30, 15],
     p_replace=0.35, p_sibs=0.3, rm_modes=[45, 35, 20],
